@@ -23,7 +23,13 @@ import (
 // lexer + recursive-descent evaluator; plus deterministic long families.
 
 // ArithParser builds the grammar from library parts only (also used by C12, C14, C17).
-func ArithParser() parsley.Parser {
+func ArithParser() parsley.Parser { return arithBuild(0) }
+
+// ArithParserExplicitEnd is the same grammar with the end of input spelled out by the grammar writer:
+// SeqOf(expr, Trim(End())) with Select(0), instead of Sentence(RightTrim(expr)).
+func ArithParserExplicitEnd() parsley.Parser { return arithBuild(1) }
+
+func arithBuild(rootStyle int) parsley.Parser {
 	bin := ast.InterpreterFunc(func(userCtx interface{}, node parsley.NonTerminalNode) (interface{}, parsley.Error) {
 		ch := node.Children()
 		l, err := parsley.EvaluateNode(userCtx, ch[0])
@@ -64,6 +70,9 @@ func ArithParser() parsley.Parser {
 		combinator.SeqOf(&expr, tok(addop), &term).Bind(bin),
 		&term,
 	))
+	if rootStyle == 1 {
+		return combinator.SeqOf(&expr, text.Trim(parser.End())).Bind(interpreter.Select(0))
+	}
 	return combinator.Sentence(text.RightTrim(&expr, text.WsSpacesNl))
 }
 
@@ -266,8 +275,10 @@ var c05Hist []string
 
 const c05Renew = 16
 
+var arithEndRoot = ArithParserExplicitEnd()
+
 func c05RenewParsers() {
-	arithRoot, arithSplitRoot, c05Hist = ArithParser(), ArithParserSplit(), nil
+	arithRoot, arithSplitRoot, arithEndRoot, c05Hist = ArithParser(), ArithParserSplit(), ArithParserExplicitEnd(), nil
 }
 
 // arithSplitRoot: same language, one left-recursive alternative per operator, and the root wrapped in text.Trim the way
@@ -302,6 +313,18 @@ func c05One(res *explore.Result, s string, verbose bool) arithKind {
 			res.Violate("grammar-formulations-disagree", fmt.Sprintf("Evaluate(%s): one alternative per operator gives %v, %v; operators as one alternative gives %v, %v", q(s), v2, e2, val, err), cs)
 		}
 		res.Add("per_operator_grammar_runs", 1)
+	}
+	if len(s) <= 5 || (len(s) > 8 && len(s) <= c05SplitMaxLen) {
+		// and through the formulation that spells the end of input out: SeqOf(expr, Trim(End())) (all strings of up to 5
+		// symbols and the long families)
+		fs3, _, r3, _ := place(placements[0], "f", []byte(s))
+		var v3 interface{}
+		var e3 error
+		if pm := guard(func() { v3, e3 = parsley.Evaluate(parsley.NewContext(fs3, r3), arithEndRoot) }); pm != "" {
+			res.Violate("panic", fmt.Sprintf("explicit-end grammar SeqOf(expr, Trim(End())): Evaluate(%s) panicked: %s", q(s), pm), cs)
+		} else if kind != arithUnspecified && ((e3 == nil) != (err == nil) || (e3 == nil && v3 != val) || (kind == arithDivZero && e3 != nil && err != nil && e3.Error() != err.Error())) {
+			res.Violate("grammar-formulations-disagree", fmt.Sprintf("Evaluate(%s): root SeqOf(expr, Trim(End())) gives %v, %v; root Sentence(RightTrim(expr)) gives %v, %v", q(s), v3, e3, val, err), cs)
+		}
 	}
 	if verbose {
 		res.Notes = append(res.Notes, fmt.Sprintf("input %s: reference kind=%d value=%d div0@%d; library value=%v err=%v", q(s), kind, want, dzAt, val, err))
